@@ -144,7 +144,13 @@ func (c *Ctx) loadKnown() {
 }
 
 // SetDeadline sets the soft deadline for this run.
-func (c *Ctx) SetDeadline(d time.Duration) { c.Deadline = c.Start.Add(d) }
+func (c *Ctx) SetDeadline(d time.Duration) {
+	// VERIF_DEADLINE_SCALE (development aid): run a tier under a shorter or longer internal budget
+	if f, err := strconv.ParseFloat(os.Getenv("VERIF_DEADLINE_SCALE"), 64); err == nil && f > 0 {
+		d = time.Duration(float64(d) * f)
+	}
+	c.Deadline = c.Start.Add(d)
+}
 
 // Expired reports whether the soft deadline passed (and records the cap).
 func (c *Ctx) Expired() bool {
